@@ -85,6 +85,14 @@ def build_cases(ctx: Ctx):
     SWAP = [{'idx': 0, 'ph': 0}, {'idx': 2, 'ph': 0}, {'idx': 1, 'ph': 0}, {'idx': 3, 'ph': 0}]
     CX = [{'idx': 0, 'ph': 0}, {'idx': 1, 'ph': 0}, {'idx': 3, 'ph': 0}, {'idx': 2, 'ph': 0}]
     cases.append({'kind': 'unitary', 'radix': 2, 'n': 2, 'table': SWAP, 'tkind': 'swap', 'level': 4, 'model': None})
+    # seed sweep at the hard end of the search space: two-qubit targets that need the maximal number of entanglers (SWAP and
+    # phase-decorated SWAPs need three CNOTs) are where a search that prunes or stops one layer early goes wrong, and only for
+    # the seeds whose first instantiation of the full template does not converge -- so the SEED is swept (the statement
+    # quantifies over it): 2 CPU seconds per case
+    SWAPZ = [{'idx': 0, 'ph': 0}, {'idx': 2, 'ph': 12}, {'idx': 1, 'ph': 0}, {'idx': 3, 'ph': 36}]
+    for s in range(24 if ctx.quick else 120):
+        cases.append({'kind': 'unitary', 'radix': 2, 'n': 2, 'table': SWAP if s % 3 else SWAPZ, 'tkind': 'swap-seed-sweep', 'level': 1, 'model': None,
+                      'cseed_fixed': s})
     # a machine wider than the target: the leading physical qudits are coupled (line) / are not coupled (0-2, 1-2)
     cases.append({'kind': 'unitary', 'radix': 2, 'n': 2, 'table': CX, 'tkind': 'cx', 'level': 1, 'model': mdl(3, 'line', 'cx_u3')})
     cases.append({'kind': 'unitary', 'radix': 2, 'n': 2, 'table': CX, 'tkind': 'cx', 'level': 1,
@@ -118,6 +126,8 @@ def build_cases(ctx: Ctx):
         c['workers'] = [2, 1, 4][i % 3]
         c['sched'] = rng.randrange(1 << 20)
         c['cseed'] = rng.randrange(1 << 16)
+        if 'cseed_fixed' in c:
+            c['cseed'] = c.pop('cseed_fixed')
         c['trace'] = False
         c['timeout'] = 150 if c['level'] == 1 else 300 if ctx.quick else 500        # CPU seconds (see run_cases)
     return cases
